@@ -15,6 +15,8 @@ c06_cases(tier) / c07_cases(tier) yield (family, class_vector, msg, asn4)
 element_pools() -> {kind: [element encodings (bytes)]}
 
 Pool facts worth knowing:
+  * Values are shared between cases (the same list / dict object appears in many messages): treat every
+    msg as read-only, deep-copy before handing it to code that may mutate its input.
   * RD type 2 needs an AS above 65535 to be expressible in yabgp's text form (upd.py SHAPE DECISION 12), so
     its AS field uses {65536, 65537, 2^32-1} instead of {0, 1, max}.
   * EVPN type-5 routes give 'esi' as a bare integer (yabgp's construct shape, upd.py SHAPE DECISION 13).
